@@ -13,9 +13,16 @@ def GenRec.t46_carrier : GenRec → Bool
   | .one _ _ => true
   | _ => false
 
-/-- a task entry: its event exists; a task with a parent is never a user generator -/
+/-- `p` is an existing generator that is not (and never becomes) a carrier: a user generator, live or finished -/
+def St.t46_nc (s : St) (p : Nat) : Prop := p < s.gens.length ∧ (s.gen p).t46_carrier = false
+
+/-- a task entry: its event exists; a task with a parent is never a user generator; a parent is never a carrier -/
 def St.T46TaskOk (s : St) (t : Task) : Prop :=
-  t.e < s.evs.length ∧ (t.parent.isSome = true → t.g < s.gens.length ∧ (s.gen t.g).t46_carrier = true)
+  t.e < s.evs.length ∧ (t.parent.isSome = true → t.g < s.gens.length ∧ (s.gen t.g).t46_carrier = true) ∧
+  (∀ p, t.parent = some p → s.t46_nc p)
+
+/-- a started wait state: its `task_event` exists, its caller is not a carrier -/
+def St.T46WaitOk (s : St) (x : WaitSt) : Prop := x.taskEvent < s.evs.length ∧ s.t46_nc x.parentGen
 
 structure St.T46K (s s' : St) : Prop where
   evs : s.evs.length ≤ s'.evs.length
@@ -23,10 +30,19 @@ structure St.T46K (s s' : St) : Prop where
   car : ∀ g, g < s.gens.length → (s'.gen g).t46_carrier = (s.gen g).t46_carrier
   tasks : ∀ x t, t ∈ (s'.comp x).tasks → t ∈ (s.comp x).tasks ∨ s'.T46TaskOk t
   waits : ∀ w, (s'.wait w).started = true →
-    ((s.wait w).started = true ∧ (s'.wait w).taskEvent = (s.wait w).taskEvent) ∨ (s'.wait w).taskEvent < s'.evs.length
+    ((s.wait w).started = true ∧ (s'.wait w).taskEvent = (s.wait w).taskEvent ∧
+      (s'.wait w).parentGen = (s.wait w).parentGen) ∨ s'.T46WaitOk (s'.wait w)
+
+theorem St.t46_nc.mono {s s' : St} (h : St.T46K s s') {p : Nat} (hp : s.t46_nc p) : s'.t46_nc p :=
+  ⟨Nat.lt_of_lt_of_le hp.1 h.gens, by rw [h.car _ hp.1]; exact hp.2⟩
 
 theorem St.T46TaskOk.mono {s s' : St} (h : St.T46K s s') {t : Task} (ht : s.T46TaskOk t) : s'.T46TaskOk t :=
-  ⟨Nat.lt_of_lt_of_le ht.1 h.evs, fun hp => ⟨Nat.lt_of_lt_of_le (ht.2 hp).1 h.gens, by rw [h.car _ (ht.2 hp).1]; exact (ht.2 hp).2⟩⟩
+  ⟨Nat.lt_of_lt_of_le ht.1 h.evs,
+   fun hp => ⟨Nat.lt_of_lt_of_le (ht.2.1 hp).1 h.gens, by rw [h.car _ (ht.2.1 hp).1]; exact (ht.2.1 hp).2⟩,
+   fun p hp => (ht.2.2 p hp).mono h⟩
+
+theorem St.T46WaitOk.mono {s s' : St} (h : St.T46K s s') {x : WaitSt} (hx : s.T46WaitOk x) : s'.T46WaitOk x :=
+  ⟨Nat.lt_of_lt_of_le hx.1 h.evs, hx.2.mono h⟩
 
 theorem St.t46_gen_setGen (s : St) (g : Nat) (x : GenRec) (g' : Nat) :
     (s.setGen g x).gen g' = if g = g' ∧ g' < s.gens.length then x else s.gen g' := by
@@ -48,7 +64,7 @@ namespace St.T46K
 variable {s t : St}
 
 theorem refl (s : St) : St.T46K s s :=
-  ⟨Nat.le_refl _, Nat.le_refl _, fun _ _ => rfl, fun _ _ h => Or.inl h, fun _ h => Or.inl ⟨h, rfl⟩⟩
+  ⟨Nat.le_refl _, Nat.le_refl _, fun _ _ => rfl, fun _ _ h => Or.inl h, fun _ h => Or.inl ⟨h, rfl, rfl⟩⟩
 
 theorem trans {a b c : St} (h1 : St.T46K a b) (h2 : St.T46K b c) : St.T46K a c := by
   refine ⟨Nat.le_trans h1.evs h2.evs, Nat.le_trans h1.gens h2.gens,
@@ -58,10 +74,11 @@ theorem trans {a b c : St} (h1 : St.T46K a b) (h2 : St.T46K b c) : St.T46K a c :
       · exact Or.inl h'
       · exact Or.inr (h'.mono h2)
     · exact Or.inr h
-  · rcases h2.waits w hw with ⟨h, he⟩ | h
-    · rcases h1.waits w h with ⟨h', he'⟩ | h'
-      · exact Or.inl ⟨h', he.trans he'⟩
-      · exact Or.inr (by rw [he]; exact Nat.lt_of_lt_of_le h' h2.evs)
+  · rcases h2.waits w hw with ⟨h, he, hp⟩ | h
+    · rcases h1.waits w h with ⟨h', he', hp'⟩ | h'
+      · exact Or.inl ⟨h', he.trans he', hp.trans hp'⟩
+      · have := h'.mono h2
+        exact Or.inr ⟨by rw [he]; exact this.1, by rw [hp]; exact this.2⟩
     · exact Or.inr h
 
 /-- the fields the relation reads are unchanged -/
@@ -73,10 +90,12 @@ theorem of_same {t' : St} (h : St.T46K s t) (h1 : t'.evs.length = t.evs.length) 
   · rw [h3] at hy
     rcases h.tasks x y hy with h' | h'
     · exact Or.inl h'
-    · exact Or.inr ⟨by rw [h1]; exact h'.1, fun hp => by rw [h2, hg]; exact h'.2 hp⟩
+    · exact Or.inr ⟨by rw [h1]; exact h'.1, fun hp => by rw [h2, hg]; exact h'.2.1 hp,
+        fun p hp => by unfold St.t46_nc; rw [h2, hg]; exact h'.2.2 p hp⟩
   · rw [h4] at hw ⊢
-    rw [h1]
-    exact h.waits w hw
+    rcases h.waits w hw with h' | h'
+    · exact Or.inl h'
+    · exact Or.inr ⟨by rw [h1]; exact h'.1, by unfold St.t46_nc; rw [h2, hg]; exact h'.2⟩
 
 theorem modComp (h : St.T46K s t) (c : Nat) (f : Comp → Comp) (hf : ∀ y : Comp, (f y).tasks = y.tasks) :
     St.T46K s (t.modComp c f) := by
@@ -95,15 +114,15 @@ theorem addH (h : St.T46K s t) (x : Handler) : St.T46K s (t.addH x) := h.of_same
 theorem tick1 (h : St.T46K s t) (d : Int) : St.T46K s (t.tick1 d) := h.of_same rfl rfl (fun _ => rfl) (fun _ => rfl)
 
 theorem addEv (h : St.T46K s t) (ev : Ev) : St.T46K s (t.addEv ev) := by
-  refine h.trans ⟨by simp [St.addEv], Nat.le_refl _, fun _ _ => rfl, fun _ _ ht => Or.inl ht, fun w hw => Or.inl ⟨hw, rfl⟩⟩
+  refine h.trans ⟨by simp [St.addEv], Nat.le_refl _, fun _ _ => rfl, fun _ _ ht => Or.inl ht, fun w hw => Or.inl ⟨hw, rfl, rfl⟩⟩
 
 theorem addGen (h : St.T46K s t) (x : GenRec) : St.T46K s (t.addGen x) := by
-  refine h.trans ⟨Nat.le_refl _, by simp [St.addGen], fun g hg => ?_, fun _ _ ht => Or.inl ht, fun w hw => Or.inl ⟨hw, rfl⟩⟩
+  refine h.trans ⟨Nat.le_refl _, by simp [St.addGen], fun g hg => ?_, fun _ _ ht => Or.inl ht, fun w hw => Or.inl ⟨hw, rfl, rfl⟩⟩
   rw [St.t46_gen_addGen_lt t x g hg]
 
 theorem setGen (h : St.T46K s t) (g : Nat) (x : GenRec)
     (hx : x.t46_carrier = (t.gen g).t46_carrier) : St.T46K s (t.setGen g x) := by
-  refine h.trans ⟨Nat.le_refl _, by simp [St.setGen], fun g' _ => ?_, fun _ _ ht => Or.inl ht, fun w hw => Or.inl ⟨hw, rfl⟩⟩
+  refine h.trans ⟨Nat.le_refl _, by simp [St.setGen], fun g' _ => ?_, fun _ _ ht => Or.inl ht, fun w hw => Or.inl ⟨hw, rfl, rfl⟩⟩
   rw [St.t46_gen_setGen]
   split
   · rename_i hc'
@@ -112,17 +131,18 @@ theorem setGen (h : St.T46K s t) (g : Nat) (x : GenRec)
   · rfl
 
 theorem modWait (h : St.T46K s t) (w : Nat) (f : WaitSt → WaitSt)
-    (hf : ∀ y : WaitSt, (f y).started = y.started ∧ (f y).taskEvent = y.taskEvent) : St.T46K s (t.modWait w f) := by
+    (hf : ∀ y : WaitSt, (f y).started = y.started ∧ (f y).taskEvent = y.taskEvent ∧ (f y).parentGen = y.parentGen) :
+    St.T46K s (t.modWait w f) := by
   refine h.trans ⟨Nat.le_refl _, Nat.le_refl _, fun _ _ => rfl, fun _ _ ht => Or.inl ht, fun w' hw => ?_⟩
   rw [St.t46_wait_modWait] at hw ⊢
   split at hw
   · rename_i hc
     rw [if_pos hc]
     rw [(hf _).1] at hw
-    exact Or.inl ⟨hw, (hf _).2⟩
+    exact Or.inl ⟨hw, (hf _).2.1, (hf _).2.2⟩
   · rename_i hc
     rw [if_neg hc]
-    exact Or.inl ⟨hw, rfl⟩
+    exact Or.inl ⟨hw, rfl, rfl⟩
 
 theorem addWait (h : St.T46K s t) (x : WaitSt) (hx : x.started = false) : St.T46K s (t.addWait x) := by
   refine h.trans ⟨Nat.le_refl _, Nat.le_refl _, fun _ _ => rfl, fun _ _ ht => Or.inl ht, fun w hw => ?_⟩
@@ -130,7 +150,7 @@ theorem addWait (h : St.T46K s t) (x : WaitSt) (hx : x.started = false) : St.T46
   simp only [List.getD_eq_getElem?_getD] at hw ⊢
   by_cases hl : w < t.waits.length
   · rw [List.getElem?_append_left hl] at hw ⊢
-    exact Or.inl ⟨hw, rfl⟩
+    exact Or.inl ⟨hw, rfl, rfl⟩
   · have hl' : t.waits.length ≤ w := Nat.le_of_not_lt hl
     rw [List.getElem?_append_right hl'] at hw
     exfalso
@@ -142,7 +162,7 @@ theorem addWait (h : St.T46K s t) (x : WaitSt) (hx : x.started = false) : St.T46
       simp [dfltWait] at hw
 
 theorem unregisterTask (h : St.T46K s t) (c : Nat) (x : Task) : St.T46K s (t.unregisterTask c x) := by
-  refine h.trans ⟨Nat.le_refl _, Nat.le_refl _, fun _ _ => rfl, fun y z hz => ?_, fun w hw => Or.inl ⟨hw, rfl⟩⟩
+  refine h.trans ⟨Nat.le_refl _, Nat.le_refl _, fun _ _ => rfl, fun y z hz => ?_, fun w hw => Or.inl ⟨hw, rfl, rfl⟩⟩
   rw [St.t46_tasks_unregisterTask] at hz
   split at hz
   · exact Or.inl (List.mem_of_mem_erase hz)
@@ -150,7 +170,7 @@ theorem unregisterTask (h : St.T46K s t) (c : Nat) (x : Task) : St.T46K s (t.unr
 
 /-- a task that is `T46TaskOk` may be registered -/
 theorem registerTask (h : St.T46K s t) (c : Nat) (x : Task) (hx : t.T46TaskOk x) : St.T46K s (t.registerTask c x) := by
-  refine h.trans ⟨Nat.le_refl _, Nat.le_refl _, fun _ _ => rfl, fun y z hz => ?_, fun w hw => Or.inl ⟨hw, rfl⟩⟩
+  refine h.trans ⟨Nat.le_refl _, Nat.le_refl _, fun _ _ => rfl, fun y z hz => ?_, fun w hw => Or.inl ⟨hw, rfl, rfl⟩⟩
   rw [St.t46_tasks_registerTask] at hz
   split at hz
   · rcases (t46_mem_addUniq _ _ _).1 hz with h' | h'
@@ -170,7 +190,7 @@ macro_rules | `(tactic| t46k1) => `(tactic| with_reducible apply St.T46K.addH)
 macro_rules | `(tactic| t46k1) => `(tactic| with_reducible apply St.T46K.addEv)
 macro_rules | `(tactic| t46k1) => `(tactic| with_reducible apply St.T46K.logE)
 macro_rules | `(tactic| t46k1) => `(tactic| with_reducible apply St.T46K.modTimer)
-macro_rules | `(tactic| t46k1) => `(tactic| ((with_reducible apply St.T46K.modWait); case hf => exact fun _ => ⟨rfl, rfl⟩))
+macro_rules | `(tactic| t46k1) => `(tactic| ((with_reducible apply St.T46K.modWait); case hf => exact fun _ => ⟨rfl, rfl, rfl⟩))
 macro_rules | `(tactic| t46k1) => `(tactic| with_reducible apply St.T46K.modEv)
 macro_rules | `(tactic| t46k1) => `(tactic| ((with_reducible apply St.T46K.modComp); case hf => exact fun _ => rfl))
 macro_rules | `(tactic| t46k1) => `(tactic| with_reducible assumption)
